@@ -40,7 +40,12 @@ func loopback(closers *[]func()) func(srv server.ServerView) transport.Channel {
 // bigBatch: n invocations with a mix of outcomes
 func bigBatch(r *rand.Rand, id int, seed int64, n int) *Batch {
 	cast := newCast(seed*40503 + int64(id))
-	service := cast.Ed("service")
+	var service *Prin
+	if id%3 == 2 {
+		service = cast.Wrapped("service", "did:web:service.example", cast.Ed("servicekey")) // receipts must name the did:web
+	} else {
+		service = cast.Ed("service")
+	}
 	cw := &World{ID: id, Kind: "bigbatch", Cast: cast, Can: "store/add", Ctx: baseCtx(service)}
 	b := &Batch{ID: id, W: cw, Handlers: map[string]string{"store/add": "ok", "store/list": "fail", "upload/add": "okfx", "space/blob/add": "badout"}}
 	// one unrelated token so that the world is never empty
